@@ -69,6 +69,11 @@ Section Convert.
 Variable V : Type.
 Variables vzero vdef : V.
 Variable Q : quirks.
+(* finding DD2: true = the repair fixes/DD2_convert_keeps_fz0_mode.diff is in the code (a second
+   output object is put into per-frequency z0 mode whenever the input is), false = the code as
+   found (the mode is established only as a side effect of copying the rows, hence lost when
+   there are no frequencies or no ports to copy) *)
+Variable dd2_fixed : bool.
 Variable conv : fname -> nat -> list V -> list V -> list V.
 
 Notation vd := (vd V).
@@ -89,18 +94,23 @@ Fixpoint run_ok (d : vd) (l : list (op V)) : vd * outcome V :=
 (* set-up of a destination distinct from the source: vnadata_init, copy of the frequency
    vector, of the reference impedances (ordinary vector, or row by row; nothing when the
    destination nominally has more ports than the source - a 0 x 0 source converted to Zin gives
-   a 1 x 0 destination - repair DD1), of the file type, format and precisions.  The z0 setters
-   read as many entries of the source vectors as the destination has ports. *)
-Definition setup_ops (din : vd) (nr nc : nat) : list (op V) :=
+   a 1 x 0 destination - repair DD1), [repair DD2: _vnadata_convert_to_fz0 of the destination
+   when the source is in per-frequency mode], then the file type, format and precisions.  The
+   z0 setters read as many entries of the source vectors as the destination has ports. *)
+Definition setup_ops1 (din : vd) (nr nc : nat) : list (op V) :=
   let np := Nat.max nr nc in
   OInit V 0 (Z.of_nat nr) (Z.of_nat nc) (Z.of_nat (freqs V din))
   :: OSetFreqVec V (map (fv V din) (seq 0 (freqs V din)))
   :: (if Nat.ltb (ports V din) np then []
       else if per_f V din
       then map (fun f => OSetFz0Vec V (Z.of_nat f) (map (z0vv V din f) (seq 0 np))) (seq 0 (freqs V din))
-      else [OSetZ0Vec V (map (z0v V din) (seq 0 np))])
-  ++ [OSetFiletype V (ftype V din); OSetFormat V (fmt V din); OSetFprec V (fprec V din);
-      OSetDprec V (dprec V din)].
+      else [OSetZ0Vec V (map (z0v V din) (seq 0 np))]).
+
+Definition setup_ops2 (din : vd) : list (op V) :=
+  [OSetFiletype V (ftype V din); OSetFormat V (fmt V din); OSetFprec V (fprec V din);
+   OSetDprec V (dprec V din)].
+
+Definition setup_ops (din : vd) (nr nc : nat) : list (op V) := setup_ops1 din nr nc ++ setup_ops2 din.
 
 Definition out_rows (din : vd) (k : ckind) : nat := match k with KXtoI => 1 | _ => rows V din end.
 Definition out_cols (din : vd) (k : ckind) : nat :=
@@ -109,7 +119,11 @@ Definition out_cols (din : vd) (k : ckind) : nat :=
   | _ => cols V din end.
 
 Definition setup_out (din dout : vd) (k : ckind) : vd * outcome V :=
-  run_ok dout (setup_ops din (out_rows din k) (out_cols din k)).
+  let '(d1, r1) := run_ok dout (setup_ops1 din (out_rows din k) (out_cols din k)) in
+  match o_ret V r1 with
+  | ROk => run_ok (if dd2_fixed && per_f V din then convert_to_fz0 V vdef Q d1 else d1) (setup_ops2 din)
+  | _ => (d1, r1)
+  end.
 
 (* per-frequency results of the selected function on the source *)
 Definition conv_results (din : vd) (cs : convsel) : list (list V) :=
